@@ -10,7 +10,7 @@ use crate::model::*;
 use crate::spec::*;
 use crate::world::RunResult;
 
-#[derive(Clone, Debug, Serialize, Deserialize)]
+#[derive(Clone, Debug, Serialize, Deserialize, Default)]
 pub struct Violation {
     pub prop: String,
     /// which oracle clause failed (minimisation keeps this fixed)
